@@ -1,8 +1,106 @@
 import Ypv.Drv.Codec
-/-! Driver handler for C01 (stub: replaced by the module that models C01) -/
+import Ypv.Model.Eval
+import Ypv.Spec.Select
+/-! Driver handler: the evaluator model and its specification (C01, C02, C15).
+
+`{"op":"C01.eval","doc":D,"segs":[…],"mt":[[method,haystack,term,answer],…],"attrs":[[text,segs|{"err":e}],…]}`
+answers `{"req":G,"opt":G,"exists":…,"spec":G,"get":G}` with `G = {"res":[R…],"err":null|class}`.
+The matcher and the reading of search attributes as paths come from the tables in the request
+(computed by the harness with the real `Searches.search_matches` and the real parser). -/
 namespace Ypv.Drv.C01
 open Lean (Json)
+open Ypv Ypv.Drv
 
-def handle (_op : String) (_j : Json) : Except String Json := throw "C01: driver not implemented yet"
+def errOfString (s : String) : Except String Err :=
+  match s with
+  | "ypath" => pure (.ypath .generic)
+  | "outOfModel" => pure .outOfModel
+  | "crash:IndexError" => pure (.crash .indexError)
+  | "crash:TypeError" => pure (.crash .typeError)
+  | "crash:KeyError" => pure (.crash .keyError)
+  | "crash:AttributeError" => pure (.crash .attributeError)
+  | "crash:ValueError" => pure (.crash .valueError)
+  | "crash:error" => pure (.crash .reError)
+  | "crash:RecursionError" => pure (.crash .recursionError)
+  | _ => if s.startsWith "crash:" then pure (.crash .other) else throw s!"error class {s}"
+
+/-- Marker for "the request's matcher table has no entry" (never produced by the model). -/
+def missMarker : Err := .eyaml
+
+abbrev MtTable := List (Method × Node × Str × Except Err Bool)
+
+def mtOfTable (t : MtTable) : Matcher := fun m n term =>
+  match t.find? (fun e => e.1 == m && e.2.2.1 == term && e.2.1 == n) with
+  | some e => e.2.2.2
+  | none => .error missMarker
+
+def mtEntryOfJson (j : Json) : Except String (Method × Node × Str × Except Err Bool) := do
+  match j with
+  | .arr #[.str m, h, .str t, a] =>
+    let ans : Except Err Bool ← match a with
+      | .bool b => pure (.ok b)
+      | .str s => pure (.error (← errOfString s))
+      | _ => throw "matcher answer"
+    pure (← methodOfName m, ← nodeOfJson h, s2l t, ans)
+  | _ => throw "matcher entry: [method, haystack, term, answer] expected"
+
+def esegs (j : Json) : Except String (List ESeg) := do
+  pure ((← segsOfJson j).map ESeg.ofSeg)
+
+def attrEntryOfJson (j : Json) : Except String (Str × Except Err (List ESeg)) := do
+  match j with
+  | .arr #[.str a, v] =>
+    match v with
+    | .arr _ => pure (s2l a, .ok (← esegs v))
+    | _ => pure (s2l a, .error (← errOfString (← getStr v "err")))
+  | _ => throw "attr entry"
+
+def parseAttrOfTable (t : List (Str × Except Err (List ESeg))) : Str → Except Err (List ESeg) :=
+  fun a => match t.lookup a with
+    | some r => r
+    | none => .error missMarker
+
+def prefToJson : PRef → Json
+  | .key k => Json.arr #["k", keyToJson k]
+  | .idx i => Json.arr #["i", Json.num (Lean.JsonNumber.fromInt i)]
+  | .member k => Json.arr #["m", keyToJson k]
+
+def ncToJson (nc : NC) : Json :=
+  let c := nc.2
+  Json.mkObj [("a", addrToJson c.addr),
+    ("p", match c.parent with | some p => addrToJson p | none => Json.null),
+    ("r", match c.pref with | some r => prefToJson r | none => Json.null),
+    ("anc", Json.arr (c.anc.map (fun e => Json.arr #[addrToJson e.1, prefToJson e.2])).toArray),
+    ("path", Json.arr (c.path.map (fun s => Json.str (l2s s))).toArray)]
+
+def resToJson : Res → Json
+  | .real nc => ncToJson nc
+  | .virt items => Json.mkObj [("v", Json.arr (items.map ncToJson).toArray)]
+
+def genToJson (g : Gen Res) : Except String Json := do
+  if g.2 = some missMarker then throw "matcher/attribute table miss"
+  pure (Json.mkObj [("res", Json.arr (g.1.map resToJson).toArray),
+    ("err", match g.2 with | some e => errToJson e | none => Json.null)])
+
+def handle (op : String) (j : Json) : Except String Json := do
+  match op with
+  | "eval" =>
+    let d ← nodeOfJson (← j.getObjVal? "doc")
+    let segs ← esegs (← j.getObjVal? "segs")
+    let mtT ← (← getArr j "mt").toList.mapM mtEntryOfJson
+    let atT ← (← getArr j "attrs").toList.mapM attrEntryOfJson
+    let mt := mtOfTable mtT
+    let dsc := Desc.ofParser mt (parseAttrOfTable atT)
+    let req := Eval.required mt dsc segs (.real (d, Ctx.root))
+    let ex : Json ← match Eval.existsQ mt dsc segs d with
+      | .ok b => pure (Json.mkObj [("ok", .bool b)])
+      | .error e => if e = missMarker then throw "table miss" else pure (Json.mkObj [("err", errToJson e)])
+    pure (Json.mkObj [
+      ("req", ← genToJson req),
+      ("get", ← genToJson (Eval.getRequired mt dsc segs d)),
+      ("opt", ← genToJson (Eval.getOptional mt dsc segs d)),
+      ("exists", ex),
+      ("spec", ← genToJson (Spec.select mt dsc segs (.real (d, Ctx.root))))])
+  | _ => throw s!"C01: unknown op {op}"
 
 end Ypv.Drv.C01
